@@ -44,13 +44,14 @@ CONSTANTS
   RecvConn = %(recvconn)d
   Reaper = %(reaper)s
   Legal = %(legal)s
+  BurstMin = 2
   Deviations = %(dev)s
 %(checks)s
 CHECK_DEADLOCK FALSE
 """
 SAFETY = ("INVARIANTS TypeOK P_C14_Windows P_C14_NewStreamWindow P_C14_FrameSize P_C14_MaxStreams P_C14_StreamIds "
-          "P_C14_Hpack P_C14_OwnWindows P_C14_Progress P_C14_OwedIsEnabled\n"
-          "PROPERTIES P_C14_WindowSteps P_C14_StreamStates")
+          "P_C14_Hpack P_C14_StreamStates P_C14_OwnWindows P_C14_Progress P_C14_NeverDropped P_C14_OwedIsEnabled\n"
+          "PROPERTIES P_C14_WindowSteps")
 LIVE = "INVARIANTS TypeOK\nPROPERTIES P_C14_BodiesComplete P_C14_PeerNeverStuck"
 
 TRACE_CFG = """SPECIFICATION TraceSpec
@@ -70,12 +71,10 @@ CONSTANTS
   RecvConn = 1048576
   Reaper = TRUE
   Legal = FALSE
+  BurstMin = 2500
   Deviations = %(dev)s
 CONSTRAINT Track
-INVARIANTS P_C14_Windows P_C14_NewStreamWindow P_C14_FrameSize P_C14_MaxStreams P_C14_StreamIds P_C14_Hpack P_C14_OwnWindows P_C14_Progress T_Conforms
-PROPERTIES P_C14_WindowSteps P_C14_StreamStates
 POSTCONDITION TraceAccepted
-ALIAS TraceAlias
 CHECK_DEADLOCK FALSE
 """
 
@@ -97,6 +96,7 @@ CONSTANTS
   RecvConn = 2
   Reaper = FALSE
   Legal = TRUE
+  BurstMin = 2
   Deviations = {}
   MaxHist = %(maxhist)d
 CHECK_DEADLOCK FALSE
@@ -130,35 +130,41 @@ def mc_cfg(wd, name, checks=SAFETY, spec="Spec", role="server", ids=(1, 3), maxw
 
 
 def model_configs(wd, thorough):
-    """(name, path, needs-coverage-of) - every config is small enough for its tier."""
+    """(name, path) - every config is small enough for its tier."""
     c = []
     # send windows: 2 streams, one mid-stream SETTINGS change (shrink below in-flight, grow), every WINDOW_UPDATE schedule
-    c.append(("windows-2streams", mc_cfg(wd, "mc_win2.cfg", ids=(1, 3), bodies=(3,) if thorough else (2,), maxwin=4 if thorough else 3,
-                                         grants=(1, 2))))
+    if thorough:
+        c.append(("windows-2streams", mc_cfg(wd, "mc_win2.cfg", ids=(1, 3), bodies=(3,), maxwin=4, grants=(1, 2))))
+    else:
+        c.append(("windows-2streams", mc_cfg(wd, "mc_win2.cfg", ids=(1, 3), bodies=(2,), maxwin=2, grants=(1, 2))))
     # one stream, full window range, body up to 4, both frame sizes and every initial window incl. 0
-    c.append(("windows-1stream", mc_cfg(wd, "mc_win1.cfg", ids=(1,), bodies=(0, 4) if thorough else (0, 3), sv="SV_Send", maxwin=4,
-                                        grants=(1, 2), legal=True)))
+    c.append(("windows-1stream", mc_cfg(wd, "mc_win1.cfg", ids=(1,), bodies=(0, 4) if thorough else (3,), sv="SV_Send", ha="HA_Upd",
+                                        maxwin=4 if thorough else 3, grants=(1, 2), legal=True)))
     # illegal WINDOW_UPDATEs (overflow), the reaper, error answers
-    c.append(("errors-reaper", mc_cfg(wd, "mc_err.cfg", ids=(1,), bodies=(2,), sv="SV_Small", maxwin=3, grants=(1, 3), reaper=True,
-                                      legal=False, maxset=1 if not thorough else 2)))
+    c.append(("errors-reaper", mc_cfg(wd, "mc_err.cfg", ids=(1,), bodies=(2,), sv="SV_Small", ha="HA_Upd", maxwin=3, grants=(1, 3),
+                                      reaper=True, legal=False, maxset=1 if not thorough else 2)))
     # sozu as the client of an h2c backend: stream limit, identifiers, header blocks in two frames, HPACK table
-    c.append(("client-limits", mc_cfg(wd, "mc_cli.cfg", role="client", ids=(1, 3), bodies=(0, 1), ups=(0, 1), sv="SV_Limits", ha="HA_All",
-                                      maxwin=2, grants=(1,), hdrlens=(1, 2), recvinit=1, recvconn=2, maxset=2 if thorough else 1)))
+    c.append(("client-limits", mc_cfg(wd, "mc_cli.cfg", role="client", ids=(1, 3), bodies=(0, 1), ups=(0, 1) if thorough else (0,),
+                                      sv="SV_Limits", ha="HA_All", maxwin=2, grants=(1,), hdrlens=(1, 2), recvinit=1, recvconn=2,
+                                      maxset=2 if thorough else 1)))
     # receive side: sozu's own windows (enlargement, credits at the threshold, per-frame stream credits)
-    c.append(("receive", mc_cfg(wd, "mc_recv.cfg", ids=(1, 3) if thorough else (1,), bodies=(0,), ups=(0, 3), sv="SV_One", maxwin=4, grants=(1,),
-                                recvinit=2, recvconn=4, conninit=2, maxset=1)))
+    c.append(("receive", mc_cfg(wd, "mc_recv.cfg", ids=(1, 3) if thorough else (1,), bodies=(0,), ups=(0, 3), sv="SV_One", maxwin=4,
+                                grants=(1,), recvinit=2, recvconn=4, conninit=2, maxset=1)))
     return c
 
 
 def live_configs(wd, thorough):
-    c = [("live-server", mc_cfg(wd, "mc_live_s.cfg", checks=LIVE, spec="FairSpec", ids=(1,), bodies=(2,), ups=(2,), sv="SV_Win",
-                                maxwin=3, conninit=1, grants=(1,), recvinit=1, recvconn=2)),
-         ("live-client", mc_cfg(wd, "mc_live_c.cfg", checks=LIVE, spec="FairSpec", role="client", ids=(1,), bodies=(2,), ups=(1,),
-                                sv="SV_Small", maxwin=3, conninit=1, grants=(1,), recvinit=1, recvconn=2, maxset=1))]
-    if thorough:
-        c.append(("live-2streams", mc_cfg(wd, "mc_live_2.cfg", checks=LIVE, spec="FairSpec", ids=(1, 3), bodies=(2,), ups=(0,),
-                                          sv="SV_Small", maxwin=2, conninit=1, grants=(1,), recvinit=1, recvconn=1, maxset=1)))
-    return c
+    if not thorough:
+        return [("live-server", mc_cfg(wd, "mc_live_s.cfg", checks=LIVE, spec="FairSpec", ids=(1,), bodies=(2,), ups=(1,), sv="SV_Win",
+                                       maxwin=2, conninit=1, grants=(1,), recvinit=1, recvconn=2, maxset=1)),
+                ("live-client", mc_cfg(wd, "mc_live_c.cfg", checks=LIVE, spec="FairSpec", role="client", ids=(1,), bodies=(1,), ups=(1,),
+                                       sv="SV_Win", maxwin=2, conninit=1, grants=(1,), recvinit=1, recvconn=2, maxset=1))]
+    return [("live-server", mc_cfg(wd, "mc_live_s.cfg", checks=LIVE, spec="FairSpec", ids=(1,), bodies=(2,), ups=(2,), sv="SV_Win",
+                                   maxwin=3, conninit=1, grants=(1,), recvinit=1, recvconn=2)),
+            ("live-client", mc_cfg(wd, "mc_live_c.cfg", checks=LIVE, spec="FairSpec", role="client", ids=(1,), bodies=(2,), ups=(1,),
+                                   sv="SV_Small", ha="HA_Upd", maxwin=3, conninit=1, grants=(1,), recvinit=1, recvconn=2, maxset=1)),
+            ("live-2streams", mc_cfg(wd, "mc_live_2.cfg", checks=LIVE, spec="FairSpec", ids=(1, 3), bodies=(2,), ups=(0,),
+                                     sv="SV_Small", ha="HA_Upd", maxwin=2, conninit=1, grants=(1,), recvinit=1, recvconn=1, maxset=1))]
 
 
 # ------------------------------------------------------------------------------------------------
@@ -203,6 +209,8 @@ def concretise(hist, role, sid, variant):
             ops.append({"op": "wu", "slot": 0 if h["sid"] == 0 else slot_of.get(h["sid"], (h["sid"] + 1) // 2), "n": h["n"] * unit})
         elif op == "sync":
             ops.append({"op": "sync"})
+    if not ops or ops[0]["op"] != "settings":
+        ops = [{"op": "settings"}] + ([{"op": "sync"}] if role == "server" else []) + ops
     modes = [{"mode": "drip", "k": max(1, unit // 3)}, {"mode": "burst", "k": 1 << 20}, {"mode": "eager"}, {"mode": "burst", "k": unit}]
     fin = dict(modes[variant % len(modes)])
     fin["op"] = "finish"
@@ -216,10 +224,11 @@ def concretise(hist, role, sid, variant):
 def generate_schedules(rep, wd, thorough):
     out = []
     seen = set()
-    plans = [("server", "{1, 3}", "{0, 2, 3}", "{0, 1}", 300 if not thorough else 1500),
-             ("client", "{1, 3}", "{1, 3}", "{0, 1}", 120 if not thorough else 600)]
+    # (role, Ids, Bodies, Ups, simulated behaviours per TLC worker, schedules kept)
+    plans = [("server", "{1, 3}", "{0, 2, 3}", "{0, 1}", 60 if not thorough else 400, 70 if not thorough else 600),
+             ("client", "{1, 3}", "{1, 3}", "{0, 1}", 30 if not thorough else 150, 30 if not thorough else 250)]
     sid = 30000
-    for role, ids, bodies, ups, num in plans:
+    for role, ids, bodies, ups, num, keep in plans:
         cfg = write(os.path.join(wd, "gen_%s.cfg" % role), GEN_CFG % {"role": role, "ids": ids, "bodies": bodies, "ups": ups, "maxhist": 14})
         g = vlib.tlc("Gen_H2Flow", cfg, PID, workers=2, timeout=240, simulate="num=%d" % num, depth=80, want_replay=True)
         if g["violated"]:
@@ -245,6 +254,8 @@ def generate_schedules(rep, wd, thorough):
                 sc["front"] = "h2"
             out.append(sc)
             n_role += 1
+            if n_role >= keep:
+                break
         vlib.log("generator %s: %d behaviours, %d distinct schedules" % (role, g["n_replays"], n_role))
     return out
 
@@ -252,8 +263,10 @@ def generate_schedules(rep, wd, thorough):
 # ------------------------------------------------------------------------------------------------
 # trace validation
 
-_RE_I = re.compile(r"/\\ i = (\d+)")
-_RE_BAD = re.compile(r'/\\ bad = <<(\d+), "([^"]*)">>')
+_RE_VERDICT = re.compile(r'<<"VERDICT", "(.*)">>')
+_RE_DEVUSED = re.compile(r'<<"DEVIATIONS-USED", (\d+)>>')
+# open deviation -> id of the finding in known_findings.json
+DEV_FINDING = {"LoopBudget": "loop-budget-drops-connection"}
 
 
 def split_runs(path):
@@ -270,9 +283,17 @@ def split_runs(path):
     return runs
 
 
+def verdict_of(t):
+    m = _RE_VERDICT.search(t["out"])
+    if not m:
+        return None
+    return json.loads(json.loads('"' + m.group(1) + '"'))
+
+
 def validate(rep, wd, role, runs, devs, tag, max_rounds=8):
     """Validate the runs (lists of ndjson lines) of one role; returns (accepted runs, violations).
-    TLC stops at the first violation, so the violating run is set aside and the rest validated again."""
+    Trace_H2Flow stops at the first state in which a P_C14 formula (or T_Conforms) is false and names it;
+    the violating run is then set aside and the rest validated again."""
     cfg = write(os.path.join(wd, "trace_%s.cfg" % role), TRACE_CFG % {"role": role, "dev": tla(list(devs))})
     violations = []
     accepted = 0
@@ -288,16 +309,18 @@ def validate(rep, wd, role, runs, devs, tag, max_rounds=8):
         t = vlib.tlc_trace("Trace_H2Flow", cfg, PID, path, timeout=900)
         rep.cov["states"] += t["distinct"]
         rep.cov["transitions"] += t["generated"]
+        m = _RE_DEVUSED.search(t["out"])
+        if m and int(m.group(1)) > 0 and rounds == 1:
+            for d in devs:
+                for _ in range(int(m.group(1))):
+                    rep.known_finding_seen(DEV_FINDING.get(d, d))
         if t["accepted"] and t["consumed"] == total:
             accepted += len(remaining)
             break
-        # locate the run
-        idx = None
-        for m in _RE_I.finditer(t["out"]):
-            idx = int(m.group(1)) - 1
-        if idx is None:
-            idx = (t["consumed"] or 0) + 1
-        bad = _RE_BAD.findall(t["out"])
+        v = verdict_of(t)
+        if v is None:
+            raise vlib.ToolError("trace validation of %s rejected the trace without a verdict" % path)
+        idx = v["at"]                      # 1-based index of the event that led to the failing state
         pos = 0
         k = 0
         for k, r in enumerate(remaining):
@@ -306,16 +329,17 @@ def validate(rep, wd, role, runs, devs, tag, max_rounds=8):
             pos += len(r)
         culprit = remaining[k]
         head = json.loads(culprit[0])
-        klass = t["violated"] or "rejected"
-        if klass == "T_Conforms" and bad:
-            klass = "T_Conforms:" + bad[-1][1]
-        ev = culprit[min(len(culprit) - 1, max(0, idx - pos - 1))]
-        violations.append({"class": klass, "role": role, "label": head.get("label"), "scen": head.get("scen"), "run": head.get("run"),
-                           "event_index": idx - pos, "event": json.loads(ev), "trace": culprit})
+        failed = sorted(v.get("failed") or ["rejected"])
+        klass = failed[0]
+        if klass == "T_Conforms" and v.get("bad"):
+            klass = "T_Conforms:" + str(v["bad"][1])
+        ev = json.loads(culprit[min(len(culprit) - 1, max(0, idx - pos - 1))]) if idx > pos else {}
+        violations.append({"class": klass, "failed": failed, "role": role, "label": head.get("label"), "scen": head.get("scen"),
+                           "run": head.get("run"), "event_index": idx - pos, "event": ev, "ledger": v.get("state"), "trace": culprit})
         accepted += k
         remaining = remaining[k + 1:]
         if rounds >= max_rounds:
-            vlib.log("trace validation: stopping after %d violating runs (%d runs not examined)" % (rounds, len(remaining)))
+            vlib.log("trace validation: stopping after %d violating connections (%d connections not examined)" % (rounds, len(remaining)))
             break
     return accepted, violations
 
@@ -333,9 +357,10 @@ def canary(wd, role, runs, devs):
                         f.write(json.dumps(x) + "\n")
                 cfg = write(os.path.join(wd, "trace_canary_%s.cfg" % role), TRACE_CFG % {"role": role, "dev": tla(list(devs))})
                 t = vlib.tlc_trace("Trace_H2Flow", cfg, PID, path, timeout=300)
-                if t["accepted"] or not t["violated"]:
+                v = verdict_of(t)
+                if t["accepted"] or not v or "P_C14_Windows" not in v.get("failed", []):
                     raise vlib.ToolError("canary: a trace with an oversized DATA frame was accepted by Trace_H2Flow")
-                return t["violated"]
+                return "P_C14_Windows"
     return None
 
 
@@ -370,7 +395,7 @@ def run(tier, replay=None):
             rep.violation("spec:" + r["violated"], "the specification itself violates %s (%s)" % (r["violated"], name), r["out"])
     # 2. every open deviation still breaks the property in the model
     for d in devs:
-        rd = vlib.tlc("MC_H2Flow", mc_cfg(wd, "mc_dev_%s.cfg" % d, role="client", ids=(1, 3), bodies=(0, 1), ups=(0,), sv="SV_Limits",
+        rd = vlib.tlc("MC_H2Flow", mc_cfg(wd, "mc_dev_%s.cfg" % d, role="server", ids=(1,), bodies=(2,), ups=(0,), sv="SV_One",
                                           maxwin=2, grants=(1,), dev=(d,), maxset=1), PID, workers=workers, timeout=600)
         rep.add_tlc(rd)
         if not rd["violated"]:
@@ -394,8 +419,8 @@ def run(tier, replay=None):
         raise vlib.ToolError("drive_h2flow produced no summary")
     summ = summ[0]
     runs_meta = [o for o in res if o.get("kind") == "run"]
-    vlib.log("drive_h2flow: %d scenarios, %d connections (%d done, %d closed, %d stalled, %d inconclusive), %.1f MB of DATA, %.1fs" % (
-        summ["scenarios"], summ["runs"], summ["done"], summ["closed"], summ["stall"], summ["inconclusive"],
+    vlib.log("drive_h2flow: %d scenarios, %d connections (%d done, %d closed, %d stalled, %d garbled, %d inconclusive), %.1f MB of DATA, %.1fs" % (
+        summ["scenarios"], summ["runs"], summ["done"], summ["closed"], summ["stall"], summ.get("garbled", 0), summ["inconclusive"],
         summ["data_bytes"] / 1e6, summ["wall_s"]))
     if summ.get("worker_panic"):
         rep.violation("worker-panic", "the worker thread panicked: %s" % summ["worker_panic"], summ)
